@@ -99,3 +99,18 @@ Check('T_distance', ['C12'], 'proj', fn_re=E(TPn) + r'::operator-\(' + E(TPn) + 
 Check('T_equal', ['C12'], 'proj', fn_re=E(TPn) + r'::operator==\(' + E(TPn) + r' const&\) const', params=['a', 'b'],
       wrapper=('bool', 'TP const* a, TP const* b', 'return *a == *b;'), cxx={'a': TPr, 'b': TPr}, mode='exact',
       requires=['1'], ensures=[('equal iff same underlying element', 'RET == (a->p_ == b->p_)')], assigns=[])
+
+# static_array_cast<T const>() and as_const(): keep extents and element identity (same layout field for field, same first element)
+for D in (1, 2, 3):
+    alldims = ' && '.join(same_dim('ret', k, 'self', k) for k in range(D)) + ' && %s == %s' % (lp('ret', D, 'nelems_'), lp('self', D, 'nelems_'))
+    Check('P%d_static_cast' % D, ['C12'], 'proj', fn='w_P%d_static_cast' % D, params=['ret', 'self'],
+          wrapper=('void', 'multi::subarray<double const, %d, double const*>* ret, CSV<double, %d> const* self' % (D, D),
+                   'new(ret) multi::subarray<double const, %d, double const*>(self->static_array_cast<double const, double const*>());' % D),
+          cxx={'self': REC2('const_subarray', 'double', D, 'double*'), 'ret': 're:boost::multi::subarray<constdouble,%d,constdouble\\*(,boost::multi::layout_t<%d>)?>' % (D, D)}, mode='exact',
+          requires=['1'], ensures=[('same first element', '(void*)ret->base_ == (void*)self->base_'), ('same layout in every dimension', alldims)], assigns=['*ret'])
+    if D > 1: Check('P%d_as_const' % D, ['C12'], 'proj',   # the D = 1 specialisation has no as_const() at the pinned commit
+ fn='w_P%d_as_const' % D, params=['ret', 'self'],
+          wrapper=('void', 'multi::const_subarray<double, %d, double const*>* ret, CSV<double, %d> const* self' % (D, D),
+                   'new(ret) multi::const_subarray<double, %d, double const*>(self->as_const());' % D),
+          cxx={'self': REC2('const_subarray', 'double', D, 'double*'), 'ret': CSUB(D)}, mode='exact',
+          requires=['1'], ensures=[('same first element', '(void*)ret->base_ == (void*)self->base_'), ('same layout in every dimension', alldims)], assigns=['*ret'])
